@@ -1,0 +1,88 @@
+//go:build verif
+
+package pdf417
+
+// Add-only hooks for the /verif proof development (build tag verif).  They
+// expose unexported tables, constants and functions; no existing line of the
+// package is touched and without the tag the package is unchanged.
+
+// VerifCodewords returns the three cluster tables (3 x 929 bar/space patterns).
+func VerifCodewords() [][]int { return codewords }
+
+// VerifStartWord / VerifStopWord return the start and stop patterns.
+func VerifStartWord() int { return start_word }
+func VerifStopWord() int  { return stop_word }
+
+// VerifCorrectionFactors returns the generator polynomial coefficients per level.
+func VerifCorrectionFactors() [][]int { return correctionFactors }
+
+// VerifMixedMap / VerifPunctMap return the rune -> value maps built by init().
+func VerifMixedMap() map[rune]int { return mixedMap }
+func VerifPunctMap() map[rune]int { return punctMap }
+
+// VerifConsts returns the named integer constants of the package.
+func VerifConsts() map[string]int {
+	return map[string]int{
+		"latch_to_text":        latch_to_text,
+		"latch_to_byte_padded": latch_to_byte_padded,
+		"latch_to_numeric":     latch_to_numeric,
+		"latch_to_byte":        latch_to_byte,
+		"shift_to_byte":        shift_to_byte,
+		"min_numeric_count":    min_numeric_count,
+		"padding_codeword":     padding_codeword,
+		"min_cols":             minCols,
+		"max_cols":             maxCols,
+		"min_rows":             minRows,
+		"max_rows":             maxRows,
+		"module_height":        moduleHeight,
+	}
+}
+
+// VerifHighLevel runs highlevelEncode.
+func VerifHighLevel(data string) ([]int, error) { return highlevelEncode(data) }
+
+// VerifEncodeText runs encodeText from the given sub-mode (0 upper, 1 lower,
+// 2 mixed, 3 punctuation) and returns the resulting sub-mode in the same coding.
+func VerifEncodeText(text []rune, sub int) (int, []int) {
+	sm, cw := encodeText(text, subUpper+subMode(sub))
+	return int(sm - subUpper), cw
+}
+
+// VerifLeftCodeWord / VerifRightCodeWord run the row indicator functions.
+func VerifLeftCodeWord(rowNum, rows, columns int, level byte) int {
+	return getLeftCodeWord(rowNum, rows, columns, level)
+}
+func VerifRightCodeWord(rowNum, rows, columns int, level byte) int {
+	return getRightCodeWord(rowNum, rows, columns, level)
+}
+
+// VerifCalculateNumberOfRows runs calculateNumberOfRows(m, k, c).
+func VerifCalculateNumberOfRows(m, k, c int) int { return calculateNumberOfRows(m, k, c) }
+
+// VerifCompute runs securitylevel(level).Compute on a copy of data.
+func VerifCompute(level byte, data []int) []int {
+	d := make([]int, len(data))
+	copy(d, data)
+	return securitylevel(level).Compute(d)
+}
+
+// VerifECCount returns ErrorCorrectionWordCount of the level.
+func VerifECCount(level byte) int { return securitylevel(level).ErrorCorrectionWordCount() }
+
+// VerifDimensions returns the number of high-level codewords of data and the
+// (columns, rows) calcDimensions chooses for them at the given level.
+func VerifDimensions(data string, level byte) (words, cols, rows int, err error) {
+	dw, err := highlevelEncode(data)
+	if err != nil {
+		return 0, 0, 0, err
+	}
+	cols, rows = calcDimensions(len(dw), securitylevel(level).ErrorCorrectionWordCount())
+	return len(dw), cols, rows, nil
+}
+
+// VerifEncodeData runs encodeData (padding, length descriptor, check words).
+func VerifEncodeData(dataWords []int, columns int, level byte) ([]int, error) {
+	d := make([]int, len(dataWords))
+	copy(d, dataWords)
+	return encodeData(d, columns, securitylevel(level))
+}
